@@ -17,7 +17,9 @@ RULE = ("one flow rule (WarmUp+Reject 72%, MemoryAdaptive+Reject 22%, invalid 6%
         "ControlBehavior Throttling (MemoryAdaptive 60% / WarmUp 40%, queueing limits 0..2000 ms, probes with batches around both thresholds, "
         "reloads incl. Reject<->Throttling); 0.4% are soak cases (goroutines overwriting the memory gauge while requests run); thresholds from "
         "{0, small integers, fractions, cold-factor boundaries +-, medium, large}, periods 1..60 s, cold factors {0(default),2..10,1(invalid)}, "
-        "StatIntervalInMs from the reusable views {0,500,1000,2000,5000,10000}; demand = phases of saturating per-second bursts, "
+        "StatIntervalInMs from the reusable views {0,500,1000,2000,5000,10000} and the non-reusable {700,1500,3000,20000} (the rule then owns a "
+        "BucketLeapArray fed by the standalone stat slot); in 60% of the cases a second, generous Direct+Reject rule is listed before (40%) or after (20%) "
+        "the adaptive rule; demand = phases of saturating per-second bursts, "
         "sub-second streams, steady single-token demand, idle gaps (short / longer than the refill time), optional traffic before the "
         "rule is loaded, batch sizes 1..5; memory readings at/around both water marks and -1; non-trivial = the rule is in force and at least "
         "one request line is partially admitted (0 < k < n) or (warm-up) two lines of equal demand admit different counts; distinct by "
@@ -46,7 +48,7 @@ def pick_T(rng, cf):
     return float(rng.choice([500, 1000, 2500]))
 
 
-IVS = [0, 0, 0, 0, 0, 0, 1000, 500, 2000, 5000, 10000]
+IVS = [0, 0, 0, 0, 0, 0, 1000, 500, 2000, 5000, 10000, 1500, 3000, 20000, 700]      # the last four cannot reuse the resource's statistic
 
 
 def reload_wu(rng, ops, cur):
@@ -70,7 +72,7 @@ def reload_wu(rng, ops, cur):
     elif k == "cf":
         new["cf"] = rng.choice([x for x in [2, 3, 4, 5, 7, 10] if x != cur["cf"] and not (cur["cf"] <= 1 and x == 3)])
     elif k == "iv":
-        new["iv"] = rng.choice([x for x in [0, 500, 1000, 2000, 5000, 10000] if x != cur["iv"]])
+        new["iv"] = rng.choice([x for x in [0, 500, 1000, 2000, 5000, 10000, 1500, 3000, 20000] if x != cur["iv"]])
     if k == "invalid":
         ops.append(rng.choice([f"load wu {fb(cur['T'])} 0 {cur['cf']} {cur['iv']}", f"load wu {fb(cur['T'])} {cur['p']} 1 {cur['iv']}"]))
         # the resource is now unprotected; put the rule back a little later
@@ -111,7 +113,7 @@ def reload_ma(rng, ops, cur):
         c = [x for x in [cur["highM"] * 2, cur["highM"] + 1, cur["highM"] + 1000, cur["highM"] - 1, (cur["lowM"] + cur["highM"]) // 2 + 1] if x != cur["highM"] and x > cur["lowM"]]
         new["highM"] = rng.choice(c)
     elif k == "iv":
-        new["iv"] = rng.choice([x for x in [0, 500, 1000, 2000, 5000, 10000] if x != cur["iv"]])
+        new["iv"] = rng.choice([x for x in [0, 500, 1000, 2000, 5000, 10000, 1500, 3000, 20000] if x != cur["iv"]])
     elif k == "invalid":
         ops.append(rng.choice([f"load ma {cur['lowT']} {cur['lowT']} {cur['lowM']} {cur['highM']} {cur['iv']}",
                                f"load ma {cur['lowT']} {cur['highT']} {cur['highM']} {cur['highM']} {cur['iv']}"]))
@@ -173,10 +175,20 @@ def demand(rng, ops, now, cur, secs_hint, reloads):
     return now, kinds
 
 
+def companion(rng, ops, tags):
+    """a second, generous Direct+Reject rule on the default statistic, listed before or after the adaptive rule: it never decides,
+    but the resource then has two controllers (the standalone stat slot must feed the adaptive rule's own statistic in both orders)"""
+    c = rng.choice(["none", "none", "pre", "pre", "post"])
+    if c != "none":
+        ops.append(f"companion {c}")
+        tags.append("companion-" + c)
+
+
 def gen_case(rng, cid, t0):
     now = t0 + rng.choice([0, 0, 1, 250, 499, 500, 501, 999])
     ops = [f"clock {now}"]
     tags = []
+    companion(rng, ops, tags)
     if rng.random() < 0.2:
         # traffic before the rule exists (admitted unconditionally, seen by the first token sync)
         ops.append(f"req {rng.choice([1, 3, 10, 50])} 1")
@@ -184,7 +196,7 @@ def gen_case(rng, cid, t0):
         ops.append(f"clock {now}")
         tags.append("preload")
     r = rng.random()
-    iv = rng.choice([0, 0, 0, 0, 0, 0, 1000, 500, 2000, 5000, 10000])
+    iv = rng.choice(IVS)
     if r < 0.72:
         cf = rng.choice([0, 0, 3, 3, 2, 2, 4, 5, 7, 10])
         T = pick_T(rng, cf)
@@ -243,8 +255,9 @@ def throttle_case(rng, cid, t0):
     now = t0 + rng.choice([0, 1, 250, 500, 999])
     ops = [f"clock {now}"]
     tags = ["throttle"]
+    companion(rng, ops, tags)
     maxq = rng.choice([0, 0, 100, 300, 500, 1000, 2000])
-    iv = rng.choice([0, 0, 0, 1000, 500, 2000])
+    iv = rng.choice([0, 0, 0, 1000, 500, 2000, 1500, 3000])
     if rng.random() < 0.6:
         lowT = rng.choice([2, 5, 10, 50, 100, rng.randint(2, 300)])
         highT = rng.choice([1, max(1, lowT // 10), max(1, lowT // 2), lowT - 1])
